@@ -10,7 +10,7 @@ from .core import (Val, Unsupported, TPoison, T_EMPTY, T_LAMBDA, T_CLASS, T_BUIL
 
 SPEC_FORMS = {"old", "pre", "forall", "exists", "implies", "iff", "forall_obj", "forall_int", "exists_int",
               "let", "ite", "seq_eq", "is_none", "unchanged", "typeis", "elems", "idx_of", "count_int",
-              "forall_str", "fresh_obj", "unchanged_except", "to_int", "to_real", "forall_int_t", "sum_of", "sum_upto", "is_perm", "sorted_by", "stable_wrt"}
+              "forall_str", "fresh_obj", "unchanged_except", "to_int", "to_real", "forall_int_t", "sum_of", "sum_upto", "is_perm", "sorted_by", "stable_wrt", "ghost_int"}
 
 
 def _forall_pat(vs, body, patterns):
@@ -339,7 +339,9 @@ class CallMixin:
             env2["result"] = res
         self.assuming_post += 1
         try:
-            for e in c.ensures:
+            for lab, e in c.ensures_labeled:
+                if lab.startswith("bounded:"):
+                    self.bounded_clauses_assumed.add("%s/%s" % (qual, lab))
                 g = self.eval_spec(e, env2, st, old_heap=old_heap, old_env=env)
                 self.assume(g, st)
         finally:
@@ -387,8 +389,42 @@ class CallMixin:
             self.old_heap, self.old_env, self.in_old = saved
 
     def eval_spec(self, expr, env, st, old_heap=None, old_env=None):
-        v = self.eval_spec_val(expr, env, st, old_heap, old_env)
-        return self.truth(v)
+        """boolean value of a specification; memoised on (text, argument terms, the heap arrays it reads) so that the
+        same clause evaluated twice in the same state is the SAME term (a precondition that literally is an earlier
+        assumption is then discharged syntactically instead of by re-proving an alpha-equivalent quantified formula)"""
+        if not isinstance(expr, str) or self.binders or self.loop_entry or self.mode == "UNROLL":
+            return self.truth(self.eval_spec_val(expr, env, st, old_heap, old_env))
+        ekey = (expr, tuple(sorted((k, v.z.get_id()) for k, v in env.items() if v is not None and z3.is_expr(v.z))),
+                tuple(sorted((k, v.z.get_id()) for k, v in (old_env or {}).items() if v is not None and z3.is_expr(v.z))))
+        for reads, val in self.spec_value_cache.get(ekey, []):
+            ok = True
+            for (which, key), aid in reads.items():
+                h = st.heap if which == "new" else (old_heap if old_heap is not None else self.old_heap)
+                cur = h.get(key) if h is not None else None
+                if cur is None:
+                    cur = self.initial_heap_arr(key)
+                if cur.get_id() != aid:
+                    ok = False
+                    break
+            if ok:
+                return val
+        saved_log = self.read_log
+        self.read_log = []
+        try:
+            val = self.truth(self.eval_spec_val(expr, env, st, old_heap, old_env))
+            log = self.read_log
+        finally:
+            self.read_log = saved_log
+        reads = {}
+        oh = old_heap if old_heap is not None else self.old_heap
+        for key, aid in log:
+            cur_new = st.heap.get(key)
+            if cur_new is not None and cur_new.get_id() == aid:
+                reads[("new", key)] = aid
+            else:
+                reads[("old", key)] = aid
+        self.spec_value_cache.setdefault(ekey, []).append((reads, val))
+        return val
 
     def parse_spec(self, text):
         if text not in self._spec_cache:
@@ -518,6 +554,12 @@ class CallMixin:
                 return Val(rt, acc)
             ps, bvs = self.prefix_sum_fn(n, g, rt, st, node)
             return Val(rt, ps(*bvs, upto))
+        if name == "ghost_int":
+            # ghost_int('name', obj): an uninterpreted integer-valued function of an object (e.g. a rank that
+            # witnesses acyclicity); as a precondition it means "for every such function"
+            v = self.ev(a[1], st)
+            f = self.uf("ghost_" + a[0].value, v.z.sort(), z3.IntSort())
+            return Val(TInt, f(v.z))
         if name == "is_perm":
             A, B = self.ev(a[0], st), self.ev(a[1], st)
             return Val(TBool, self.is_perm(A, B, st, node))
